@@ -103,7 +103,12 @@ pub fn run(tr: &mut Tr, seed: u64, rpaths: &str, wpaths: &str, full: bool, shard
                         tests += 1;
                         distinct.insert((ci, sp.key, ww, dir_to));
                         // destination at a random fill level
-                        let ws = wstates[rng.random_range(0..wstates.len())];
+                        // (one time in three: word-aligned after a delivered word, the bit buffer still holding it)
+                        let aligned_stale = wstates.iter().find(|p| p.key == ww && !p.path.is_empty());
+                        let ws = match aligned_stale {
+                            Some(a) if tests % 3 == 0 => *a,
+                            _ => wstates[rng.random_range(0..wstates.len())],
+                        };
                         let mut tw = TW::new(tr, &wcfg, 0);
                         for p in &ws.path {
                             match p {
